@@ -20,6 +20,7 @@ Record bdc_case := {
   bdc_plain : list (list Z);              (* plain payloads (compressed cases only) *)
   bdc_sh : list Z;                        (* stored dbHeader bytes *)
   bdc_hdr_plain : option (list Z);        (* Some: a dbHeader was set *)
+  bdc_old : list Z;                       (* data file left at the path by a crashed earlier writer *)
   bdc_data : list Z; bdc_hdr : list Z;    (* .dat and .idx as written by the real code *)
   bdc_open_out : bdc_open;
   bdc_looks : list (list Z * bdc_out);
@@ -91,12 +92,13 @@ Definition bdc_check (c : bdc_case) : bool :=
   let db := bd_write_all bd_create (bdc_ws c) in
   let hfile := bd_header_file db (bdc_sh c) in
   let '(op, buf) := bdc_model_open c hfile in
-  bdc_bytes_eqb (bd_data db) (bdc_data c) &&
+  let disk := bd_data_over (bdc_old c) (bd_data db) in
+  bdc_bytes_eqb disk (bdc_data c) &&
   bdc_bytes_eqb hfile (bdc_hdr c) &&
   bdc_open_eqb op (bdc_open_out c) &&
-  bdc_looks_ok c buf (bd_data db) (bdc_looks c) &&
+  bdc_looks_ok c buf disk (bdc_looks c) &&
   forallb (fun ct =>
-    let d' := firstn (bdc_cut_d ct) (bd_data db) in
+    let d' := bd_data_over (bdc_old c) (firstn (bdc_cut_d ct) (bd_data db)) in
     let h' := firstn (bdc_cut_h ct) hfile in
     let '(op', buf') := bdc_model_open c h' in
     bdc_open_eqb op' (bdc_cut_open ct) && bdc_looks_ok c buf' d' (bdc_cut_looks ct)) (bdc_cuts c).
